@@ -772,6 +772,15 @@ def m_strings_tolower(ex, args, guard, pos):
     return StrV(out, s.len), guard
 
 
+def m_strings_equalfold_ascii(ex, args, guard, pos):
+    """opt-in ("equalfold_ascii"): strings.EqualFold for ASCII strings -- bytes >= 0x80 are compared as they are, Unicode
+    simple folding is not modelled (without the option EqualFold runs from its real SSA)"""
+    a, _ = m_strings_tolower(ex, [args[0]], guard, pos)
+    b, _ = m_strings_tolower(ex, [args[1]], guard, pos)
+    ex.note("assumption", "strings.EqualFold modelled for ASCII strings only (opt-in)")
+    return ex.str_eq(a, b), guard
+
+
 def m_net_joinhostport(ex, args, guard, pos):
     """net.JoinHostPort(host, port): "[host]:port" when host contains ':' or '%' (IPv6 literal), else "host:port" """
     host, port = args
@@ -1172,6 +1181,8 @@ def install(ex):
     M["strings.Cut"] = m_strings_cut
     M["strings.TrimSpace"] = m_strings_trimspace
     M["strings.ToLower"] = m_strings_tolower
+    if ex.opts.get("equalfold_ascii"):
+        M["strings.EqualFold"] = m_strings_equalfold_ascii
     M["strings.Clone"] = m_identity0  # strings are values here: a copy is the same value
     M["internal/stringslite.Clone"] = m_identity0
     M["strconv.Itoa"] = m_strconv_itoa
